@@ -21,12 +21,14 @@ import (
 )
 
 type costFamily struct {
-	Name   string    `json:"name"`
-	Prefix proj.Text `json:"prefix"`
-	Unit   proj.Text `json:"unit"`
-	Suffix proj.Text `json:"suffix"`
-	Base   proj.Text `json:"base"`
-	Op     string    `json:"op"` // parse (default) | setters | searchparams | canon:<profile>
+	Name     string    `json:"name"`
+	Prefix   proj.Text `json:"prefix"`
+	Unit     proj.Text `json:"unit"`
+	Suffix   proj.Text `json:"suffix"`
+	Unit2    proj.Text `json:"unit2"`    // two-phase families: prefix + unit^n + unit2^n + suffix (grow a structure, then shrink / rescan it)
+	BaseUnit proj.Text `json:"baseunit"` // base = base + baseunit^n (a long base resolved against a long reference)
+	Base     proj.Text `json:"base"`
+	Op       string    `json:"op"` // parse (default) | setters | searchparams | canon:<profile>
 }
 
 type costResult struct {
@@ -144,9 +146,10 @@ func cmdCost(args []string) int {
 			}
 			r := costResult{Name: f.Name, Op: op, N: n}
 			for i, k := range []int{n, 4 * n} {
-				s := f.Prefix.ToGo() + strings.Repeat(f.Unit.ToGo(), k) + f.Suffix.ToGo()
-				workload(op, f.Prefix.ToGo()+f.Unit.ToGo()+f.Suffix.ToGo(), f.Base.ToGo()) // warm up lazily initialised tables
-				bt, ml, e := measure(op, s, f.Base.ToGo())
+				s := f.Prefix.ToGo() + strings.Repeat(f.Unit.ToGo(), k) + strings.Repeat(f.Unit2.ToGo(), k) + f.Suffix.ToGo()
+				base := f.Base.ToGo() + strings.Repeat(f.BaseUnit.ToGo(), k)
+				workload(op, f.Prefix.ToGo()+f.Unit.ToGo()+f.Unit2.ToGo()+f.Suffix.ToGo(), f.Base.ToGo()+f.BaseUnit.ToGo()) // warm up lazily initialised tables
+				bt, ml, e := measure(op, s, base)
 				r.Bytes[i], r.Mallocs[i], r.Len[i] = bt, ml, len(s)
 				if e != "" {
 					r.Err = e
